@@ -84,7 +84,7 @@ def run(ctx):
         if len(f) >= 2:
             model[f[0]] = f[1:]
 
-    n_diff = n_clean = n_cert = n_cert_na = n_realwt = n_constraints = n_nodes = 0
+    n_diff = n_clean = n_cert = n_cert_na = n_realwt = n_constraints = n_nodes = n_outside_model = n_corpus_in = n_untyped = n_corpus_rw = 0
     gclasses, sclasses, node_kinds, ckinds, distinct, samples, cert_other = {}, {}, {}, {}, set(), [], {}
     diffs = []
     for r in cases:
@@ -117,6 +117,12 @@ def run(ctx):
         n_clean += clean
         # ---- tie
         m = model.get(cid)
+        if m and "out-of-fragment" in m[0]:
+            # the model itself says the body leaves the fragment (a method call on a type-parameter receiver, a dyn expected type)
+            n_outside_model += 1
+            continue
+        corpus = cid.startswith("K")
+        n_corpus_in += corpus
         if not m or show(parse(m[0])) != show(ri):
             n_diff += 1
             if len(diffs) < 5:
@@ -126,7 +132,8 @@ def run(ctx):
         if clean:
             if cert == "(cert true)":
                 n_cert += 1
-            elif cert == "(cert field)":
+            elif cert in ("(cert field)", "(cert error-node)"):
+                # a field access, or a form without a declarative rule yet (method callee, array literal: obligation `bad`)
                 n_cert_na += 1
             else:
                 cert_other[cert] = cert_other.get(cert, 0) + 1
@@ -139,8 +146,13 @@ def run(ctx):
                 ctx.report({"oracle": "infer-accepted-clean", "kind": (gd + sd)[0]},
                            "the program was ACCEPTED although the typer pushed a diagnostic while checking this function", payload)
             rw = m[2] if m and len(m) > 2 else "(realwt ?)"
-            if rw == "(realwt ok)":
+            if corpus:
+                # corpus bodies call builtins (wildcard array lengths, `Builtin` callees) the strict judgement on final types does not know
+                n_corpus_rw += rw == "(realwt ok)"
+            elif rw == "(realwt ok)":
                 n_realwt += 1
+            elif rw == "(realwt untyped)":
+                n_untyped += 1  # a form without a declarative rule yet (method-call forms, array literals)
             else:
                 ob = parse(rw)
                 kind = ob[1][1][0] if isinstance(ob, list) and len(ob) > 1 and isinstance(ob[1], list) and len(ob[1]) > 1 \
@@ -160,6 +172,8 @@ def run(ctx):
         src, verdict, expect = vlib.unesc(r[2]), r[3], r[4]
         msgs = r[5] if len(r) > 5 else ""
         payload = {"id": pid, "program": src, "expect": expect, "verdict": verdict, "messages": msgs[:600]}
+        if expect == "corpus":
+            continue
         if expect == "ok":
             n_ok += 1
             if verdict != "accepted":
@@ -178,7 +192,14 @@ def run(ctx):
     return {
         "programs": len(progs), "programs_generated_well_typed": n_ok, "programs_with_one_injected_error": n_ill,
         "injected_error_kinds": ill_kinds, "injected_errors_not_rejected_by_the_typer": ill_accepted,
-        "functions_compared": len(cases), "functions_outside_the_fragment(skipped)": len(skips),
+        "functions_compared": len(cases) - n_outside_model, "functions_outside_the_fragment(skipped)": len(skips) + n_outside_model,
+        "REAL_CORPUS(top-level functions of package Main of the corpus programs)": {
+            "programs": gen_cov.get("corpus_programs", 0), "functions": gen_cov.get("corpus_functions", 0),
+            "inside_the_model_and_compared": n_corpus_in, "of_which_real_final_types_pass_the_strict_judgement(counted only)": n_corpus_rw,
+            "outside_the_model": gen_cov.get("corpus_functions", 0) - n_corpus_in,
+            "outside_by_first_unsupported_node": {k[len("corpus_outside_"):]: v for k, v in sorted(gen_cov.items()) if k.startswith("corpus_outside_")},
+            "outside_found_by_the_model(method call on a type-parameter receiver, dyn)": n_outside_model},
+        "accepted_functions_with_a_form_without_declarative_rule(method call, array)": n_untyped,
         "constraints_compared": n_constraints, "constraint_kinds": ckinds, "expression_nodes_with_compared_types": n_nodes,
         "hir_node_kinds(in compared bodies)": {k: node_kinds[k] for k in sorted(node_kinds)},
         "distinct(generation diagnostics, solve diagnostics, constraint kinds, queue length, fresh keys)": len(distinct),
